@@ -51,29 +51,20 @@ def single {α} (l : List α) : Outcome α :=
 
 def hasSome {α} (l : List α) : Bool := !l.isEmpty
 
-/-- `IteratorExt::slice(left, right)` — `none` = panic (`right.abs()` overflows for `isize::MIN`
-    in the debug profile). `left`, `right` range over `isize`. -/
-def slice {α} (l0 : List α) (left right : Int) : Option (List α) :=
+/-- `IteratorExt::slice(left, right)`; `left`, `right` range over `isize`. None of the arithmetic
+    can overflow (`unsigned_abs`, guarded subtractions), so the function is total. -/
+def slice {α} (l0 : List α) (left right : Int) : List α :=
   let len : Int := l0.length
   -- Convert left to positive notation and trim
   let l : Nat := if left < 0 then asUsize (len + left) else asUsize left
   let it := if l > 0 then nthFront l0 (l - 1) else l0
-  -- Convert right to negative notation and trim (original `len` is used)
-  if right < 0 ∧ right = isizeMin then none
-  else
-    let r : Nat :=
-      if right > 0 ∧ right < len then (right - len + 1).natAbs
-      else if right < 0 ∧ right.natAbs ≤ len then (right.natAbs - 1)
-      else if right < 0 then len.toNat
-      else 0
-    let it := if r > 0 then nthBack it (r - 1) else it
-    -- Get first or last
-    let it :=
-      if left = 0 ∧ right = 0 then
-        let i := len - 2
-        if i > 0 then nthBack it i.toNat else it
-      else it
-    some it
+  -- Convert right to negative notation and trim (the original `len` is used)
+  let r : Nat :=
+    if right ≥ 0 ∧ right < len then (right - len + 1).natAbs
+    else if right < 0 ∧ right.natAbs ≤ l0.length then (right.natAbs - 1)
+    else if right < 0 then l0.length
+    else 0
+  if r > 0 then nthBack it (r - 1) else it
 
 /-- `StringExt::size` -/
 def size (s : Str) : Nat := s.length
